@@ -1,0 +1,41 @@
+//go:build verif
+
+// Contracts for package client (internal/ocode_client), read by /verif/govc. Not part of a
+// normal build.
+
+package client
+
+import (
+	iclient "github.com/HobbyOSs/gosk/internal/client"
+	"github.com/HobbyOSs/gosk/internal/codegen"
+)
+
+func old[T any](x T) T { return x }
+
+// SpecCtx exposes, to contracts of other packages, the code generation context a
+// client writes to (nil if c is not the ocode client).
+func SpecCtx(c iclient.CodegenClient) *codegen.CodeGenContext {
+	oc, ok := c.(*ocodeClient)
+	if !ok {
+		return nil
+	}
+	return oc.ctx
+}
+
+//@ func (*ocodeClient).SetDollarPosition
+//@ props C16 C03
+//@ requires c != nil && c.ctx != nil
+//@ ensures[set] c.ctx.DollarPosition == uint64(pos)
+//@ assigns CodeGenContext.DollarPosition
+
+//@ func (*ocodeClient).SetBitMode
+//@ props C17
+//@ requires c != nil && c.ctx != nil
+//@ ensures[set] c.ctx.BitMode == mode
+//@ assigns CodeGenContext.BitMode
+
+//@ func (*ocodeClient).SetSymbolTable
+//@ props C03
+//@ requires c != nil && c.ctx != nil
+//@ ensures[set] vcSame(c.ctx.SymTable, symTable)
+//@ assigns CodeGenContext.SymTable
